@@ -209,6 +209,12 @@ func checkC03(r *Run) {
 			cowNegativeRuns(r)
 		}
 	}
+	if only("roots") {
+		runRoots(r)
+		if !r.quick() {
+			rootsNegativeRuns(r)
+		}
+	}
 }
 
 // C04 - transactions are atomic and isolated.
